@@ -20,6 +20,7 @@ let parse_call (tok : string) : call =
   | ["F"; "psh"; o] -> CFeed (InPush (nat_of_int (int_of_string o)))
   | ["F"; "fin"; o] -> CFeed (InFin (nat_of_int (int_of_string o)))
   | ["F"; "alert"] -> CFeed InAlert | ["F"; "eof"] -> CFeed InEof | ["F"; "err"] -> CFeed InErr
+  | ["F"; "cut"; _] -> CFeed InEof     (* EOF inside a frame: the same termination cause as a clean EOF *)
   | _ -> failwith ("bad call " ^ tok)
 
 let res_str = function
